@@ -880,7 +880,7 @@ class Interp:
             if op_ is not None:
                 return self._object_binop(op_, args[0], args[1])
         if self.symbolic and path.startswith('operator.') and len(args) == 2 and not kwargs and any(isinstance(x, (Opaque, Sym)) for x in args) and not any(x is UNK for x in args):
-            sym_ = {'mul': '*', 'add': '+', 'sub': '-', 'truediv': '/', 'pow': '**', 'floordiv': '//', 'mod': '%'}.get(path.split('.', 1)[1].strip('_'))
+            sym_ = {'mul': '*', 'add': '+', 'sub': '-', 'truediv': '/', 'pow': '**', 'floordiv': '//', 'mod': '%', 'and': '&', 'or': '|'}.get(path.split('.', 1)[1].strip('_'))
             if sym_ is not None:
                 if sym_ == '*' and args[0] == 1 and not isinstance(args[0], bool):
                     return args[1]
